@@ -1,3 +1,1044 @@
 package main
 
-func runFrames(eng *Engine, cfg *EffectCfg) []*EffectObl { return nil }
+// C10 frame obligations: an entry function (Solve / Prove / Verify / blueprint methods) must not write
+// memory reachable from its shared parameters (compiled system, keys, option values). Discharged by a
+// summary-based provenance analysis over go/ssa:
+//   W(f)  = set of regions (parameter i, first-level field) f may write into (deeply), with a witness
+//   R(f)  = what the results of f may point to (parameter regions, or fresh objects with tainted fields)
+// computed to a fixpoint over the call graph of the loaded packages. Writes into memory allocated during
+// the call are not in W. The analysis is flow-insensitive and conservative for code it sees; callees
+// without body use the assumed effects listed in extEffects (reported in the evidence).
+
+import (
+	"fmt"
+	"os"
+	"strings"
+	"go/token"
+	"go/types"
+	"regexp"
+	"sort"
+
+	"golang.org/x/tools/go/ssa"
+)
+
+type region struct {
+	param int  // index into params ++ freevars; -2 = package-level state
+	field int  // first-level field index, -1 = whole object / not a struct
+	depth int  // 0: the write goes into the referent object itself; n: through n pointers stored in it (capped at 3)
+}
+
+type base struct {
+	kind   int // 0 = param region, 1 = fresh allocation (site), 2 = global
+	reg    region
+	site   ssa.Value
+	direct bool // the parameter value itself (a pointer to the object), not something loaded from it
+	faddr  int  // for fresh allocations: address of field faddr (-1: the object / a cell)
+	isAddr bool
+	depth  int  // param regions: number of pointers followed from the parameter's referent (capped at 3)
+	cell   bool // a captured variable (free variable holding the address of a reference-typed variable), not yet loaded
+}
+
+type baseSet map[string]base
+
+func (b base) key() string {
+	return fmt.Sprintf("%d|%d|%d|%p|%v|%d|%v|%v|%v", b.kind, b.reg.param, b.reg.field, b.site, b.direct, b.faddr, b.isAddr, b.depth, b.cell)
+}
+
+func (s baseSet) add(b base) bool {
+	k := b.key()
+	if _, ok := s[k]; ok {
+		return false
+	}
+	s[k] = b
+	return true
+}
+
+func (s baseSet) addAll(o baseSet) bool {
+	ch := false
+	for _, b := range o {
+		if s.add(b) {
+			ch = true
+		}
+	}
+	return ch
+}
+
+type writeInfo struct {
+	why string
+	via string // the function (or external method) performing the ultimate write
+}
+
+type wkey struct {
+	r   region
+	via string
+}
+
+type fnSummary struct {
+	fn     *ssa.Function
+	wv     map[wkey]writeInfo
+	w      map[region]writeInfo
+	ret    map[int]baseSet            // per result index: bases of returned values over this function's params (fresh sites summarised)
+	retFld map[int]map[int]baseSet    // per result index, for returned fresh objects: field -> param regions stored there
+	tuples map[ssa.Value]map[int]baseSet // call result tuples: component -> bases
+	vals   map[ssa.Value]baseSet      // local
+	taint  map[ssa.Value]map[int]baseSet // fresh alloc site -> field (-1 cell) -> stored bases
+}
+
+type frameAnalysis struct {
+	eng     *Engine
+	sums    map[*ssa.Function]*fnSummary
+	byName  map[string][]*ssa.Function
+	assumes map[string]bool
+	changed bool
+	comps   map[ssa.Value]map[int]ssa.Value
+}
+
+// assumed effects of callees without body: which argument positions (0 = receiver for methods) may be written
+var extWritesArgs = map[string][]int{
+	"FFT": {1}, "FFTInverse": {1}, "BitReverse": {0}, "Butterfly": {0, 1}, "Read": {1}, "ReadFull": {1}, "Decode": {1},
+	"Copy": {0}, "PutUint64": {1}, "PutUint32": {1}, "Sort": {0}, "Ints": {0}, "Slice": {0}, "Strings": {0},
+}
+
+var extReadOnlyMethods = map[string]bool{"Equal": true, "IsZero": true, "IsOne": true, "Cmp": true, "String": true, "Marshal": true, "Bytes": true, "RawBytes": true,
+	"BigInt": true, "Sign": true, "BitLen": true, "IsUint64": true, "Uint64": true, "Int64": true, "Text": true, "IsInSubGroup": true, "IsInfinity": true, "IsOnCurve": true,
+	"Len": true, "Size": true, "BlockSize": true, "Error": true, "WriteTo": true, "WriteRawTo": true, "Msg": true, "Str": true, "Dur": true, "Int": true, "Err": true,
+	"Logger": true, "With": true, "Debug": true, "Info": true, "Warn": true, "Trace": true, "CurveID": true, "Bit": true, "Coefficients": true, "Clone": true, "Commit": true,
+	"NbConstraints": true, "ProveKnowledge": true, "Load": true, "Wait": true, "RLock": true, "RUnlock": true, "Lock": true, "Unlock": true, "Done": true, "Add": false}
+
+func runFrames(eng *Engine, cfg *EffectCfg) []*EffectObl {
+	fa := &frameAnalysis{eng: eng, sums: map[*ssa.Function]*fnSummary{}, byName: map[string][]*ssa.Function{}, assumes: map[string]bool{}}
+	fns := eng.allFunctions()
+	for _, f := range fns {
+		fa.sums[f] = &fnSummary{fn: f, wv: map[wkey]writeInfo{}, w: map[region]writeInfo{}, ret: map[int]baseSet{}, retFld: map[int]map[int]baseSet{}}
+		if f.Signature.Recv() != nil {
+			fa.byName[f.Name()] = append(fa.byName[f.Name()], f)
+		}
+	}
+	for iter := 0; iter < 30; iter++ {
+		fa.changed = false
+		for _, f := range fns {
+			fa.analyse(fa.sums[f])
+		}
+		if !fa.changed {
+			break
+		}
+	}
+	if dbg := os.Getenv("GOVC_FRAME_DEBUG"); dbg != "" {
+		for _, f := range fns {
+			if strings.Contains(f.String(), dbg) {
+				sum := fa.sums[f]
+				fmt.Fprintln(os.Stderr, "== summary of", f.String())
+				for k, wi := range sum.wv {
+					fmt.Fprintf(os.Stderr, "  W param=%d field=%d depth=%d via=%s : %s\n", k.r.param, k.r.field, k.r.depth, wi.via, wi.why)
+				}
+				for ri, rbs := range sum.ret {
+					for _, b := range rbs {
+						fmt.Fprintf(os.Stderr, "  RET[%d] kind=%d param=%d field=%d depth=%d direct=%v\n", ri, b.kind, b.reg.param, b.reg.field, b.depth, b.direct)
+					}
+					for fld, bs := range sum.retFld[ri] {
+						for _, b := range bs {
+							fmt.Fprintf(os.Stderr, "  RETFLD[%d] %d <- kind=%d param=%d field=%d\n", ri, fld, b.kind, b.reg.param, b.reg.field)
+						}
+					}
+				}
+			}
+		}
+	}
+	var out []*EffectObl
+	var fnames []string
+	for fre := range cfg.SharedParams {
+		fnames = append(fnames, fre)
+	}
+	sort.Strings(fnames)
+	for _, fre := range fnames {
+		re := regexp.MustCompile(fre)
+		shared := cfg.SharedParams[fre]
+		for _, f := range fns {
+			if !re.MatchString(f.String()) {
+				continue
+			}
+			sum := fa.sums[f]
+			for i, p := range f.Params {
+				isShared := false
+				for _, s := range shared {
+					if s == p.Name() || s == "*" || (s == "recv" && i == 0 && f.Signature.Recv() != nil) {
+						isShared = true
+					}
+				}
+				if !isShared || !isRefLike(p.Type()) {
+					continue
+				}
+				vias := map[string]string{}
+				for wk, wi := range sum.wv {
+					if wk.r.param == i {
+						if _, dup := vias[wi.via]; !dup || len(wi.why) < len(vias[wi.via]) {
+							vias[wi.via] = wi.why
+						}
+					}
+				}
+				var assumes []string
+				for a := range fa.assumes {
+					assumes = append(assumes, a)
+				}
+				sort.Strings(assumes)
+				text := fmt.Sprintf("%s writes nothing reachable from its shared parameter %s (only memory it allocates or owns)", funcShort(f), p.Name())
+				if len(vias) == 0 {
+					out = append(out, &EffectObl{Name: fmt.Sprintf("%s#assigns(%s)", funcShort(f), p.Name()), Kind: "assigns", OK: true, Pos: eng.relPos(f.Pos()), Text: text, Assumes: assumes})
+					continue
+				}
+				var vs []string
+				for v := range vias {
+					vs = append(vs, v)
+				}
+				sort.Strings(vs)
+				for _, v := range vs {
+					out = append(out, &EffectObl{Name: fmt.Sprintf("%s#assigns(%s):via(%s)", funcShort(f), p.Name(), v), Kind: "assigns", OK: false, Pos: eng.relPos(f.Pos()),
+						Text: text + ": written by " + v + ": " + vias[v], Detail: vias[v], Assumes: assumes})
+				}
+			}
+		}
+	}
+	return out
+}
+
+func (fa *frameAnalysis) paramIndex(f *ssa.Function, v ssa.Value) int {
+	for i, p := range f.Params {
+		if p == v {
+			return i
+		}
+	}
+	for i, fv := range f.FreeVars {
+		if fv == v {
+			return len(f.Params) + i
+		}
+	}
+	return -1
+}
+
+func (fa *frameAnalysis) val(s *fnSummary, v ssa.Value) baseSet {
+	if bs, ok := s.vals[v]; ok {
+		return bs
+	}
+	switch x := v.(type) {
+	case *ssa.Parameter, *ssa.FreeVar:
+		if isRefLike(v.Type()) || isFuncType(v.Type()) {
+			bs := baseSet{}
+			_, isFV := v.(*ssa.FreeVar)
+			bs.add(base{kind: 0, reg: region{fa.paramIndex(s.fn, v), -1, 0}, direct: true, faddr: -1, cell: isFV && isCellType(v.Type())})
+			return bs
+		}
+	case *ssa.Global:
+		bs := baseSet{}
+		bs.add(base{kind: 2, reg: region{-2, -1, 0}, faddr: -1, isAddr: true})
+		_ = x
+		return bs
+	}
+	return baseSet{}
+}
+
+func isFuncType(t types.Type) bool {
+	_, ok := types.Unalias(t).Underlying().(*types.Signature)
+	return ok
+}
+
+func (fa *frameAnalysis) setVal(s *fnSummary, v ssa.Value, bs baseSet) {
+	cur, ok := s.vals[v]
+	if !ok {
+		cur = baseSet{}
+		s.vals[v] = cur
+	}
+	if cur.addAll(bs) {
+		fa.changed = true
+	}
+}
+
+func (fa *frameAnalysis) addWrite(s *fnSummary, r region, why string) {
+	fa.addWriteVia(s, r, why, funcShort(s.fn))
+}
+
+// W is keyed by (region, via): distinct ultimate write sites stay distinguishable in the reports
+func (fa *frameAnalysis) addWriteVia(s *fnSummary, r region, why, via string) {
+	k := wkey{r, via}
+	if _, ok := s.wv[k]; !ok {
+		s.wv[k] = writeInfo{why: why, via: via}
+		s.w[r] = writeInfo{why: why, via: via}
+		fa.changed = true
+	}
+}
+
+func (fa *frameAnalysis) taintOf(s *fnSummary, site ssa.Value, fld int) baseSet {
+	m := s.taint[site]
+	if m == nil {
+		return baseSet{}
+	}
+	out := baseSet{}
+	if bs := m[fld]; bs != nil {
+		out.addAll(bs)
+	}
+	if fld != -1 {
+		if bs := m[-1]; bs != nil {
+			out.addAll(bs)
+		}
+	} else {
+		for _, bs := range m {
+			out.addAll(bs)
+		}
+	}
+	return out
+}
+
+func (fa *frameAnalysis) addTaint(s *fnSummary, site ssa.Value, fld int, bs baseSet) {
+	if os.Getenv("GOVC_TAINT_DEBUG") != "" && fld == -1 && len(bs) > 0 && strings.Contains(s.fn.String(), os.Getenv("GOVC_TAINT_DEBUG")) {
+		fmt.Fprintf(os.Stderr, "TAINT -1 of %s (%T %s) in %s: %d bases\n", site.Name(), site, site.String(), s.fn.Name(), len(bs))
+	}
+	m := s.taint[site]
+	if m == nil {
+		m = map[int]baseSet{}
+		s.taint[site] = m
+	}
+	cur := m[fld]
+	if cur == nil {
+		cur = baseSet{}
+		m[fld] = cur
+	}
+	// only param / global bases and other fresh sites matter
+	if cur.addAll(bs) {
+		fa.changed = true
+	}
+}
+
+// writeThrough: a store through an address / into the referent of a value with these bases
+func (fa *frameAnalysis) writeThrough(s *fnSummary, bs baseSet, stored baseSet, why string) {
+	for _, b := range bs {
+		switch b.kind {
+		case 0:
+			r := b.reg
+			r.depth = b.depth
+			fa.addWrite(s, r, why)
+		case 2:
+			fa.addWrite(s, region{-2, -1, 0}, why)
+		case 1:
+			if stored != nil {
+				fa.addTaint(s, b.site, b.faddr, stored)
+			}
+		}
+	}
+}
+
+func (fa *frameAnalysis) writeThroughVia(s *fnSummary, bs baseSet, why, via string) {
+	for _, b := range bs {
+		switch b.kind {
+		case 0:
+			r := b.reg
+			r.depth = b.depth
+			fa.addWriteVia(s, r, why, via)
+		case 2:
+			fa.addWriteVia(s, region{-2, -1, 0}, why, via)
+		}
+	}
+}
+
+// deref: bases of the value obtained by loading through an address with these bases
+func (fa *frameAnalysis) deref(s *fnSummary, bs baseSet) baseSet {
+	out := baseSet{}
+	for _, b := range bs {
+		switch b.kind {
+		case 0:
+			if b.cell && b.direct {
+				// loading a captured variable: the value of the variable plays the role of the parameter
+				nb := b
+				nb.cell = false
+				out.add(nb)
+				continue
+			}
+			nb := b
+			if !b.direct || b.isAddr {
+				// a value read out of the parameter's referent (or deeper): what it points to is one level deeper
+				if nb.depth < 3 {
+					nb.depth++
+				}
+			}
+			nb.direct = false
+			nb.isAddr = false
+			out.add(nb)
+		case 2:
+			nb := b
+			nb.isAddr = false
+			out.add(nb)
+		case 1:
+			out.addAll(fa.taintOf(s, b.site, b.faddr))
+			if !b.isAddr {
+				// loading through a pointer INTO a fresh object (e.g. element of a fresh slice): contents = taints of the object
+				out.addAll(fa.taintOf(s, b.site, -1))
+			}
+		}
+	}
+	return out
+}
+
+func (fa *frameAnalysis) analyse(s *fnSummary) {
+	f := s.fn
+	if s.vals == nil {
+		s.vals = map[ssa.Value]baseSet{}
+		s.taint = map[ssa.Value]map[int]baseSet{}
+		s.tuples = map[ssa.Value]map[int]baseSet{}
+	}
+	pos := func(p token.Pos) string { return fa.eng.relPos(p) }
+	for _, b := range f.Blocks {
+		for _, in := range b.Instrs {
+			switch x := in.(type) {
+			case *ssa.Alloc, *ssa.MakeSlice, *ssa.MakeMap, *ssa.MakeChan:
+				bs := baseSet{}
+				_, isAlloc := x.(*ssa.Alloc)
+				bs.add(base{kind: 1, site: x.(ssa.Value), faddr: -1, isAddr: isAlloc})
+				fa.setVal(s, x.(ssa.Value), bs)
+			case *ssa.FieldAddr:
+				out := baseSet{}
+				for _, bb := range fa.val(s, x.X) {
+					nb := bb
+					switch bb.kind {
+					case 0:
+						if bb.direct {
+							nb.reg.field = x.Field
+							nb.direct = false
+						}
+						nb.isAddr = true
+					case 1:
+						if bb.faddr == -1 {
+							nb.faddr = x.Field
+						}
+						nb.isAddr = true
+					}
+					out.add(nb)
+				}
+				fa.setVal(s, x, out)
+			case *ssa.IndexAddr:
+				out := baseSet{}
+				for _, bb := range fa.val(s, x.X) {
+					nb := bb
+					nb.isAddr = true
+					if bb.kind == 0 {
+						nb.direct = false
+					}
+					out.add(nb)
+				}
+				fa.setVal(s, x, out)
+			case *ssa.Slice:
+				fa.setVal(s, x, fa.val(s, x.X))
+			case *ssa.Field, *ssa.Index:
+				var src ssa.Value
+				if fx, ok := x.(*ssa.Field); ok {
+					src = fx.X
+				} else {
+					src = x.(*ssa.Index).X
+				}
+				if typeHasPointers(x.(ssa.Value).Type(), 0) {
+					fa.setVal(s, x.(ssa.Value), fa.val(s, src))
+				}
+			case *ssa.UnOp:
+				if x.Op == token.MUL {
+					if typeHasPointers(x.Type(), 0) {
+						fa.setVal(s, x, fa.deref(s, fa.val(s, x.X)))
+					}
+				} else if x.Op == token.ARROW {
+					// value received from a channel: unknown origin; treat as fresh
+				}
+			case *ssa.Store:
+				if !typeHasPointers(x.Val.Type(), 0) {
+					fa.writeThrough(s, fa.val(s, x.Addr), nil, "store at "+pos(x.Pos()))
+					continue
+				}
+				// struct copy between fresh objects keeps the per-field taints
+				if ld, ok := x.Val.(*ssa.UnOp); ok && ld.Op == token.MUL && isStructLike(x.Val.Type()) {
+					copied := false
+					for _, sb := range fa.val(s, ld.X) {
+						if sb.kind != 1 || sb.faddr != -1 {
+							continue
+						}
+						for _, db := range fa.val(s, x.Addr) {
+							if db.kind == 1 && db.faddr == -1 {
+								for fld, bs := range s.taint[sb.site] {
+									fa.addTaint(s, db.site, fld, bs)
+								}
+								copied = true
+							}
+						}
+					}
+					if copied {
+						fa.writeThrough(s, fa.val(s, x.Addr), nil, "store at "+pos(x.Pos()))
+						continue
+					}
+				}
+				stored := fa.val(s, x.Val)
+				fa.writeThrough(s, fa.val(s, x.Addr), stored, "store at "+pos(x.Pos()))
+			case *ssa.MapUpdate:
+				var stored baseSet
+				if isRefLike(x.Value.Type()) {
+					stored = fa.val(s, x.Value)
+				}
+				fa.writeThrough(s, fa.val(s, x.Map), stored, "map update at "+pos(x.Pos()))
+			case *ssa.Phi:
+				for _, e := range x.Edges {
+					fa.setVal(s, x, fa.val(s, e))
+				}
+			case *ssa.ChangeType:
+				fa.setVal(s, x, fa.val(s, x.X))
+			case *ssa.ChangeInterface:
+				fa.setVal(s, x, fa.val(s, x.X))
+			case *ssa.MakeInterface:
+				fa.setVal(s, x, fa.val(s, x.X))
+			case *ssa.TypeAssert:
+				fa.setVal(s, x, fa.val(s, x.X))
+			case *ssa.Extract:
+				if tv, ok := s.tuples[x.Tuple]; ok {
+					if bs, ok := tv[x.Index]; ok {
+						fa.setVal(s, x, bs)
+					}
+				} else {
+					fa.setVal(s, x, fa.val(s, x.Tuple))
+				}
+			case *ssa.Convert:
+				if isRefLike(x.Type()) {
+					fa.setVal(s, x, fa.val(s, x.X))
+				}
+			case *ssa.Lookup:
+				if isRefLike(x.Type()) || isStructLike(x.Type()) {
+					fa.setVal(s, x, fa.deref(s, fa.val(s, x.X)))
+				}
+			case *ssa.Next:
+				// (ok, key, value) of a map iteration: value comes out of the map
+				if r, ok := x.Iter.(*ssa.Range); ok {
+					fa.setVal(s, x, fa.deref(s, fa.val(s, r.X)))
+				}
+			case *ssa.MakeClosure:
+				fn := x.Fn.(*ssa.Function)
+				if fa.sums[fn] == nil && strings.Contains(fn.Synthetic, "bound method wrapper") && fn.Object() != nil {
+					// s.method used as a value: the wrapper calls the method with the bound receiver
+					if mf, ok := fn.Object().(*types.Func); ok {
+						if m := fa.eng.prog.FuncValue(mf); m != nil {
+							if o := m.Origin(); o != nil && o != m {
+								m = o
+							}
+							if fa.sums[m] != nil && len(x.Bindings) == 1 {
+								bs := baseSet{}
+								bs.add(base{kind: 1, site: x, faddr: -1})
+								fa.setVal(s, x, bs)
+								args := []ssa.Value{x.Bindings[0]}
+								for i := 1; i < len(m.Params); i++ {
+									args = append(args, nil)
+								}
+								fa.applyCallee(s, m, args, nil, "method value "+shortFuncName(m)+" created at "+pos(x.Pos()))
+								fa.addTaint(s, x, -1, fa.val(s, x.Bindings[0]))
+								continue
+							}
+						}
+					}
+				}
+				bs := baseSet{}
+				bs.add(base{kind: 1, site: x, faddr: -1})
+				fa.setVal(s, x, bs)
+				// conservatively: the closure will be called; apply its effects on the bound values now
+				var args []ssa.Value
+				for range fn.Params {
+					args = append(args, nil)
+				}
+				args = append(args, x.Bindings...)
+				fa.applyCallee(s, fn, args, x, "closure "+shortFuncName(fn)+" created at "+pos(x.Pos()))
+				// a closure value carries whatever its bindings point to
+				for _, bnd := range x.Bindings {
+					fa.addTaint(s, x, -1, fa.val(s, bnd))
+				}
+			case *ssa.Return:
+				for ri, r := range x.Results {
+					if !typeHasPointers(r.Type(), 0) {
+						continue
+					}
+					if s.ret[ri] == nil {
+						s.ret[ri] = baseSet{}
+						s.retFld[ri] = map[int]baseSet{}
+					}
+					for _, bb := range fa.val(s, r) {
+						switch bb.kind {
+						case 0, 2:
+							if s.ret[ri].add(bb) {
+								fa.changed = true
+							}
+						case 1:
+							// fresh object returned: export its field taints
+							fb := base{kind: 1, faddr: -1}
+							if s.ret[ri].add(fb) {
+								fa.changed = true
+							}
+							for fld, bs := range s.taint[bb.site] {
+								cur := s.retFld[ri][fld]
+								if cur == nil {
+									cur = baseSet{}
+									s.retFld[ri][fld] = cur
+								}
+								for _, tb := range fa.flattenTaint(s, bs, 0) {
+									if cur.add(tb) {
+										fa.changed = true
+									}
+								}
+							}
+						}
+					}
+				}
+			case ssa.CallInstruction:
+				fa.call(s, x)
+			}
+		}
+	}
+}
+
+func isStructLike(t types.Type) bool {
+	switch types.Unalias(t).Underlying().(type) {
+	case *types.Struct, *types.Array, *types.Tuple:
+		return true
+	}
+	return false
+}
+
+// flattenTaint: param/global bases reachable through fresh objects
+func (fa *frameAnalysis) flattenTaint(s *fnSummary, bs baseSet, depth int) baseSet {
+	out := baseSet{}
+	for _, b := range bs {
+		switch b.kind {
+		case 0, 2:
+			nb := b
+			if depth > 0 {
+				nb.direct = false
+			}
+			out.add(nb)
+		case 1:
+			if depth < 3 && b.site != nil {
+				out.addAll(fa.flattenTaint(s, fa.taintOf(s, b.site, -1), depth+1))
+			}
+		}
+	}
+	return out
+}
+
+func (fa *frameAnalysis) call(s *fnSummary, ci ssa.CallInstruction) {
+	c := ci.Common()
+	pos := fa.eng.relPos(ci.Pos())
+	var resV ssa.Value
+	if v, ok := ci.(ssa.Value); ok {
+		resV = v
+	}
+	if b, ok := c.Value.(*ssa.Builtin); ok {
+		switch b.Name() {
+		case "append":
+			// in place unless the slice was capped with a three-index expression
+			capped := false
+			if sl, ok := c.Args[0].(*ssa.Slice); ok && sl.Max != nil && sl.High != nil && (sl.Max == sl.High || sameLenCall(sl.Max, sl.High)) {
+				capped = true
+			}
+			var stored baseSet
+			if len(c.Args) > 1 && isRefLikeElem(c.Args[1].Type()) {
+				stored = fa.deref(s, fa.val(s, c.Args[1]))
+			}
+			if !capped {
+				fa.writeThrough(s, fa.val(s, c.Args[0]), stored, "append into the spare capacity of a slice at "+pos)
+			}
+			if resV != nil {
+				bs := baseSet{}
+				if !capped {
+					bs.addAll(fa.val(s, c.Args[0]))
+				}
+				nb := base{kind: 1, site: resV, faddr: -1}
+				bs.add(nb)
+				if stored != nil {
+					fa.addTaint(s, resV, -1, stored)
+				}
+				// the copied prefix keeps what the old elements pointed to
+				fa.addTaint(s, resV, -1, fa.deref(s, fa.val(s, c.Args[0])))
+				fa.setVal(s, resV, bs)
+			}
+		case "copy":
+			var stored baseSet
+			if isRefLikeElem(c.Args[1].Type()) {
+				stored = fa.deref(s, fa.val(s, c.Args[1]))
+			}
+			fa.writeThrough(s, fa.val(s, c.Args[0]), stored, "copy into a slice at "+pos)
+		case "delete", "clear":
+			fa.writeThrough(s, fa.val(s, c.Args[0]), nil, b.Name()+" at "+pos)
+		}
+		return
+	}
+	var args []ssa.Value
+	if c.IsInvoke() {
+		args = append(args, c.Value)
+	}
+	args = append(args, c.Args...)
+	var targets []*ssa.Function
+	if c.IsInvoke() {
+		iface, _ := c.Value.Type().Underlying().(*types.Interface)
+		for _, m := range fa.byName[c.Method.Name()] {
+			if len(m.Params) == len(args) && implementsByNames(fa.eng.prog, m.Signature.Recv().Type(), iface) {
+				targets = append(targets, m)
+			}
+		}
+	} else if g := c.StaticCallee(); g != nil {
+		if o := g.Origin(); o != nil && o != g {
+			g = o
+		}
+		targets = append(targets, g)
+	} else {
+		// call of a function value: closures created in analysed code were applied at creation; a function
+		// value rooted at a parameter (e.g. an option) may store what it captured into its pointer arguments
+		fb := fa.val(s, c.Value)
+		for _, a := range c.Args {
+			if _, isPtr := types.Unalias(a.Type()).Underlying().(*types.Pointer); isPtr {
+				for _, ab := range fa.val(s, a) {
+					if ab.kind == 1 {
+						fa.addTaint(s, ab.site, -1, fa.flattenTaint(s, fb, 0))
+					}
+				}
+			}
+		}
+		if resV != nil && (isRefLike(resV.Type()) || isStructLike(resV.Type())) {
+			fa.setVal(s, resV, fa.flattenTaint(s, fb, 0))
+		}
+		return
+	}
+	known := false
+	for _, g := range targets {
+		if sum := fa.sums[g]; sum != nil {
+			known = true
+			fa.applyCallee(s, g, args, resV, "call of "+shortFuncName(g)+" at "+pos)
+		}
+	}
+	if known {
+		// an interface declared outside this module (hash.Hash, io.Writer ...) can also hold implementations
+		// that are not in the loaded packages: their assumed effect is applied as well
+		external := false
+		if c.IsInvoke() {
+			external = true
+			if n, ok := types.Unalias(c.Value.Type()).(*types.Named); ok && n.Obj().Pkg() != nil && strings.HasPrefix(n.Obj().Pkg().Path()+"/", modPrefix) {
+				external = false
+			}
+		}
+		if !external {
+			return
+		}
+	}
+	// callee without body
+	name := c.Value.Name()
+	isMethod := false
+	if c.IsInvoke() {
+		name = c.Method.Name()
+		isMethod = true
+	} else if g := c.StaticCallee(); g != nil {
+		name = g.Name()
+		isMethod = g.Signature.Recv() != nil
+		if isEffectFree(calleePkgPath(g)) {
+			return
+		}
+	}
+	if idx, ok := extWritesArgs[name]; ok {
+		for _, i := range idx {
+			if !isMethod {
+				i-- // positions are given with the receiver at 0
+				if i < 0 {
+					i = 0
+				}
+			}
+			if i >= 0 && i < len(args) {
+				fa.writeThroughVia(s, fa.val(s, args[i]), "external "+name+" writes its argument at "+pos, "external:"+name)
+			}
+		}
+		fa.assumes["external "+name+" writes exactly the listed argument positions"] = true
+	} else if isMethod && !extReadOnlyMethods[name] && len(args) > 0 {
+		if os.Getenv("GOVC_TAINT_DEBUG") != "" && strings.Contains(s.fn.String(), os.Getenv("GOVC_TAINT_DEBUG")) {
+			fmt.Fprintf(os.Stderr, "EXTCALL %s recv=%s bases=%d at %s\n", name, args[0].Name(), len(fa.val(s, args[0])), pos)
+		}
+		if _, isPtr := types.Unalias(args[0].Type()).Underlying().(*types.Pointer); isPtr || c.IsInvoke() {
+			fa.writeThroughVia(s, fa.val(s, args[0]), "external method "+name+" may modify its receiver at "+pos, "external:"+name)
+			fa.assumes["external methods modify at most their receiver (read-only ones listed in govc/frames.go)"] = true
+		}
+	} else {
+		fa.assumes["external package-level functions do not modify their arguments (exceptions listed in govc/frames.go)"] = true
+	}
+	// results of external calls: fresh, except methods returning their receiver type
+	if resV != nil && isMethod && len(args) > 0 && types.Identical(resV.Type(), args[0].Type()) {
+		fa.setVal(s, resV, fa.val(s, args[0]))
+	} else if resV != nil && (isRefLike(resV.Type())) {
+		bs := baseSet{}
+		bs.add(base{kind: 1, site: resV, faddr: -1})
+		fa.setVal(s, resV, bs)
+	}
+}
+
+func isRefLikeElem(t types.Type) bool {
+	if sl, ok := types.Unalias(t).Underlying().(*types.Slice); ok {
+		return typeHasPointers(sl.Elem(), 0)
+	}
+	return false
+}
+
+// typeHasPointers: values of this type can hold references (pointers, slices, maps, interfaces, funcs, channels)
+func typeHasPointers(t types.Type, depth int) bool {
+	if depth > 6 {
+		return true
+	}
+	switch tt := types.Unalias(t).Underlying().(type) {
+	case *types.Basic:
+		return tt.Kind() == types.UnsafePointer || tt.Kind() == types.String && false
+	case *types.Struct:
+		for i := 0; i < tt.NumFields(); i++ {
+			if typeHasPointers(tt.Field(i).Type(), depth+1) {
+				return true
+			}
+		}
+		return false
+	case *types.Array:
+		return typeHasPointers(tt.Elem(), depth+1)
+	case *types.Tuple:
+		for i := 0; i < tt.Len(); i++ {
+			if typeHasPointers(tt.At(i).Type(), depth+1) {
+				return true
+			}
+		}
+		return false
+	}
+	return true
+}
+
+// applyCallee maps the callee's write regions and result description onto the caller's values
+func (fa *frameAnalysis) applyCallee(s *fnSummary, g *ssa.Function, args []ssa.Value, resV ssa.Value, why string) {
+	sum := fa.sums[g]
+	if sum == nil {
+		return
+	}
+	argBases := func(i int) baseSet {
+		if i < 0 || i >= len(args) || args[i] == nil {
+			return baseSet{}
+		}
+		if k := i - len(g.Params); k >= 0 && k < len(g.FreeVars) && isCellType(g.FreeVars[k].Type()) {
+			// captured variable: the callee's regions are relative to the variable's value
+			return fa.deref(s, fa.val(s, args[i]))
+		}
+		return fa.val(s, args[i])
+	}
+	for wk, wi := range sum.wv {
+		r := wk.r
+		via := wi.via
+		chain := why + " -> " + wi.why
+		if len(chain) > 600 {
+			chain = chain[:600] + "..."
+		}
+		if r.param == -2 {
+			fa.addWriteVia(s, region{-2, -1, 0}, chain, via)
+			continue
+		}
+		for _, b := range argBases(r.param) {
+			switch b.kind {
+			case 0:
+				reg := b.reg
+				if b.direct && r.field >= 0 {
+					reg.field = r.field
+				}
+				reg.depth = r.depth + b.depth
+				if reg.depth > 3 {
+					reg.depth = 3
+				}
+				fa.addWriteVia(s, reg, chain, via)
+			case 2:
+				fa.addWriteVia(s, region{-2, -1, 0}, chain, via)
+			case 1:
+				// a write into a fresh object itself is local; a deep write goes to what its (tainted) fields point to
+				if r.depth == 0 {
+					continue
+				}
+				fld := r.field
+				if b.faddr != -1 {
+					fld = b.faddr
+				}
+				for _, tb := range fa.flattenTaint(s, fa.taintOf(s, b.site, fld), 0) {
+					if tb.kind == 0 {
+						reg := tb.reg
+						// one pointer (the one stored in the fresh object) has been followed already
+						reg.depth = r.depth - 1 + tb.depth
+						if reg.depth > 3 {
+							reg.depth = 3
+						}
+						if tb.direct && r.field >= 0 && b.faddr == -1 {
+							// unknown which field of the referent: keep the whole object
+						}
+						fa.addWriteVia(s, reg, chain, via)
+					} else if tb.kind == 2 {
+						fa.addWriteVia(s, region{-2, -1, 0}, chain, via)
+					}
+				}
+			}
+		}
+	}
+	if resV == nil {
+		return
+	}
+	nres := g.Signature.Results().Len()
+	for ri := 0; ri < nres; ri++ {
+		rbs := sum.ret[ri]
+		if rbs == nil {
+			continue
+		}
+		out := baseSet{}
+		// every result component gets its own pseudo-site for the taints of a returned fresh object
+		var site ssa.Value = resV
+		if nres > 1 {
+			site = fa.componentSite(s, resV, ri)
+		}
+		for _, rb := range rbs {
+			switch rb.kind {
+			case 0:
+				for _, b := range argBases(rb.reg.param) {
+					nb := b
+					if b.kind == 0 && b.direct && rb.reg.field >= 0 {
+						nb.reg.field = rb.reg.field
+					}
+					if !rb.direct {
+						nb.direct = false
+					}
+					nb.depth += rb.depth
+					if nb.depth > 3 {
+						nb.depth = 3
+					}
+					out.add(nb)
+				}
+			case 2:
+				out.add(rb)
+			case 1:
+				out.add(base{kind: 1, site: site, faddr: -1})
+				for fld, bs := range sum.retFld[ri] {
+					mapped := baseSet{}
+					for _, tb := range bs {
+						if tb.kind == 0 {
+							for _, b := range argBases(tb.reg.param) {
+								nb := b
+								nb.direct = false
+								if b.kind == 0 && b.direct && tb.reg.field >= 0 {
+									nb.reg.field = tb.reg.field
+								}
+								mapped.add(nb)
+							}
+						} else {
+							mapped.add(tb)
+						}
+					}
+					fa.addTaint(s, site, fld, mapped)
+				}
+			}
+		}
+		if nres == 1 {
+			fa.setVal(s, resV, out)
+		} else {
+			tv := s.tuples[resV]
+			if tv == nil {
+				tv = map[int]baseSet{}
+				s.tuples[resV] = tv
+			}
+			if tv[ri] == nil {
+				tv[ri] = baseSet{}
+			}
+			if tv[ri].addAll(out) {
+				fa.changed = true
+			}
+		}
+	}
+}
+
+type compSite struct {
+	ssa.Value
+	idx int
+}
+
+// componentSite: a stable pseudo allocation site for component idx of a call's result tuple
+func (fa *frameAnalysis) componentSite(s *fnSummary, call ssa.Value, idx int) ssa.Value {
+	if fa.comps == nil {
+		fa.comps = map[ssa.Value]map[int]ssa.Value{}
+	}
+	m := fa.comps[call]
+	if m == nil {
+		m = map[int]ssa.Value{}
+		fa.comps[call] = m
+	}
+	if v, ok := m[idx]; ok {
+		return v
+	}
+	v := &compSite{Value: call, idx: idx}
+	m[idx] = v
+	return v
+}
+
+// sameLenCall: both values are len(x) of the same x (s[:len(s):len(s)])
+func sameLenCall(a, b ssa.Value) bool {
+	ca, ok1 := a.(*ssa.Call)
+	cb, ok2 := b.(*ssa.Call)
+	if !ok1 || !ok2 {
+		return false
+	}
+	ba, ok1 := ca.Common().Value.(*ssa.Builtin)
+	bb, ok2 := cb.Common().Value.(*ssa.Builtin)
+	if !ok1 || !ok2 || ba.Name() != "len" || bb.Name() != "len" {
+		return false
+	}
+	return sameSource(ca.Common().Args[0], cb.Common().Args[0], 0)
+}
+
+func sameSource(a, b ssa.Value, depth int) bool {
+	if a == b {
+		return true
+	}
+	if depth > 4 {
+		return false
+	}
+	switch x := a.(type) {
+	case *ssa.UnOp:
+		if y, ok := b.(*ssa.UnOp); ok && x.Op == y.Op {
+			return sameSource(x.X, y.X, depth+1)
+		}
+	case *ssa.FieldAddr:
+		if y, ok := b.(*ssa.FieldAddr); ok && x.Field == y.Field {
+			return sameSource(x.X, y.X, depth+1)
+		}
+	case *ssa.Field:
+		if y, ok := b.(*ssa.Field); ok && x.Field == y.Field {
+			return sameSource(x.X, y.X, depth+1)
+		}
+	}
+	return false
+}
+
+// implementsByNames: the candidate's receiver type has all the methods (by name) of the invoked interface
+func implementsByNames(prog *ssa.Program, recv types.Type, iface *types.Interface) bool {
+	if iface == nil {
+		return true
+	}
+	ms := types.NewMethodSet(recv)
+	if _, isPtr := recv.(*types.Pointer); !isPtr {
+		ms = types.NewMethodSet(types.NewPointer(recv))
+	}
+	for i := 0; i < iface.NumMethods(); i++ {
+		found := false
+		for j := 0; j < ms.Len(); j++ {
+			if ms.At(j).Obj().Name() == iface.Method(i).Name() {
+				found = true
+				break
+			}
+		}
+		if !found {
+			return false
+		}
+	}
+	return true
+}
+
+// isCellType: pointer to a reference-typed variable (how closures capture variables by reference)
+func isCellType(t types.Type) bool {
+	p, ok := types.Unalias(t).Underlying().(*types.Pointer)
+	if !ok {
+		return false
+	}
+	return isRefLike(p.Elem()) || isFuncType(p.Elem())
+}
